@@ -8,6 +8,7 @@ import (
 	"encoding/json"
 	"fmt"
 	"math/rand"
+	"strings"
 	"sync"
 	"time"
 
@@ -170,7 +171,25 @@ func distCli(rows [][]int, o distOpts, r []int, cpus int) (ev distEvent, ok bool
 	if r[0] != -1 || r[1] != -1 || r[2] != -1 || r[3] != -1 {
 		argv = append(argv, "--range1", fmt.Sprintf("%d:%d", r[0], r[1]), "--range2", fmt.Sprintf("%d:%d", r[2], r[3]))
 	}
-	out, errs, code := runGoalign(fastaRows(rows), argv...)
+	// every other time (three rows or more) the alignment comes second in a Phylip input, behind one with a row less:
+	// whatever the command keeps from one alignment to the next (clamped ranges, models) meets different data
+	in := fastaRows(rows)
+	multi := len(rows) >= 3 && len(rows[0]) >= 1 && (len(rows)+len(rows[0])+cpus+r[1]+r[3])%2 == 0
+	if multi {
+		argv = append(argv, "-p")
+		in = append(phylipRows(rows[:len(rows)-1]), phylipRows(rows)...)
+	}
+	out, errs, code := runGoalign(in, argv...)
+	if multi && code == 0 {
+		// skip the first matrix
+		lines := strings.SplitAfter(out, "\n")
+		if len(lines) < len(rows) {
+			return ev, false
+		}
+		out = strings.Join(lines[len(rows):], "")
+	} else if multi {
+		return ev, false // a failure cannot be attributed to either alignment
+	}
 	if code != 0 {
 		ev.Kind, ev.Msg = cliKind(errs), "goalign "+fmt.Sprint(argv)+": "+errs
 		if len(ev.Msg) > 600 {
